@@ -9,7 +9,7 @@ import (
 
 func init() {
 	register(&propCheck{id: "C20", needV2: true, needRoot: true, run: checkC20,
-		explanation: "Decided statically on module v2 (narrow; necessary conditions only): (1) DOM — the change-log replay that reconstructs a version ends in a comparison of the recomputed root hash with the stored root hash of the target version, and every success return is on its `equal` edge: a reload cannot silently produce a different tree; LoadVersion takes that target hash from the stored root of exactly the requested version and replays only when the target lies after the checkpoint it started from; (2) ERR — at every call site of the v2 module that can reach a SQLite operation and returns an error, the error is not dropped and not swallowed into a nil-error return (same E1/E2 rules as C17, with SQLite statement/connection methods as the storage operations). Added in the build round: SQL — every statement text is recovered from the program and parsed: tables / columns exist in the CREATE TABLE of that table, INSERT / UNION / duplicate CREATE lists agree (SQL-schema); placeholders = bound values and result columns = Scan destinations for every statement a prepared-statement variable can hold (SQL-arity); NodeKey version / sequence are bound to and scanned from *version / *sequence columns (SQL-roles); ORDER-replay-reset — the replay returns with the pending-write lists reset after the last call that fills them; FLOW-prune-to-checkpoint — the leaf change log is pruned only to FindPrevious(requested); FLOW-checkpoint-flag — the stored checkpoint flag and the in-memory checkpoint list derive from the same decision; SIB-memoize. NOT decided: that the replay actually reproduces the contents (runtime sequence numbers, which rows get tagged as orphans and with which version), the interleavings of the two writer goroutines, snapshot contents — these are runtime data, and the WHERE-clause arithmetic of the SQL is only checked for shape (tables, columns, arity, roles), not for meaning."})
+		explanation: "Decided statically on module v2 (narrow; necessary conditions only): (1) DOM — the change-log replay that reconstructs a version ends in a comparison of the recomputed root hash with the stored root hash of the target version, and every success return is on its `equal` edge: a reload cannot silently produce a different tree; LoadVersion takes that target hash from the stored root of exactly the requested version and replays only when the target lies after the checkpoint it started from; (2) ERR — at every call site of the v2 module that can reach a SQLite operation and returns an error, the error is not dropped and not swallowed into a nil-error return (same E1/E2 rules as C17, with SQLite statement/connection methods as the storage operations). Added in the build round: SQL — every statement text is recovered from the program and parsed: tables / columns exist in the CREATE TABLE of that table, INSERT / UNION / duplicate CREATE lists agree (SQL-schema); placeholders = bound values and result columns = Scan destinations for every statement a prepared-statement variable can hold (SQL-arity); NodeKey version / sequence are bound to and scanned from *version / *sequence columns (SQL-roles); ORDER-replay-reset — the replay returns with the pending-write lists reset after the last call that fills them; FLOW-prune-to-checkpoint — the leaf change log is pruned only to FindPrevious(requested); FLOW-checkpoint-flag — the stored checkpoint flag and the in-memory checkpoint list derive from the same decision; SIB-memoize. NOT decided: that the replay actually reproduces the contents (runtime sequence numbers, which rows get tagged as orphans and with which version), the interleavings of the two writer goroutines, snapshot contents — these are runtime data, and the WHERE-clause arithmetic of the SQL is only checked for shape (tables, columns, arity, roles), not for meaning. Rules added in the later seeding rounds (each listed with what it decides in this file's rule table) are described in DESIGN.md §3 \"Third and fourth seeding rounds\" and Appendix C3–C5."})
 }
 
 // sqliteOps: calls into the SQLite binding.
